@@ -33,6 +33,21 @@ R2  no extrapolation (also C02-R10, C17-R6; positive controls).  On every path
     (fill_value alone changes nothing), interp1d raises unless bounds_error is
     false or fill_value='extrapolate'; LinearNDInterpolator,
     NearestNDInterpolator, interp2d, RectBivariateSpline never refuse.
+    A routine told not to refuse is still sound when explicit range tests
+    refuse in its place (envelope_guard): on every path to the look-up the
+    literals of the path condition that mention a component of the query,
+    evaluated on a sample grid, contradict the path for that component below
+    the first / above the last node of its own grid axis (the other branch of
+    the test leaves by raise) and agree with it at the two end nodes (a strict
+    comparison refuses the table's own edge) -- whatever the form of the test
+    (chained / two one-sided comparisons, min()/max() of the axis, bounds the
+    constructor derives from the axes, bool helper, all(.. for q, axis in
+    zip(point, grid)), a statement loop over zip(point, grid), a helper with
+    guard clauses).  Literals that only read the interpolator object (its
+    number of masses) say which shape of table the path is for and are solved
+    over small counts; a path whose literals contradict each other is no path.
+    A test skipped by a guard clause / early return on one shape of table, made
+    on one side or against another axis, or that only warns, is a violation.
 R3  load-time validation.  (a) a validator of the model builds the performance
     table on every path, outside any try/except, and keeps it where evaluate()
     reads it; (b) every normal path through the table's initialisation has
@@ -130,7 +145,9 @@ UNITS = 'units.py'
 # it was bound to, so that a value reads in terms of the root function's parameters, attributes of `self` and module
 # names, whichever helper / closure / temporary it went through.  Every branch forks the path and adds its condition
 # (value-substituted) to the path condition; resolved repository callees (nested closures, module helpers, methods
-# by the dynamic class of `self`, properties, callable objects) are inlined; loops over literal tables are unrolled,
+# by the dynamic class of `self`, methods of the object an undeclared field holds -- its class is what the methods of
+# the owner store into it --, properties, callable objects) are inlined; loops over literal tables are unrolled, a loop
+# over zip(display, sequence) too under the path literal len(sequence) >= len(display) (the other branch is summarised);
 # other loops are summarised by one symbolic iteration with the loop-modified locals made unknown.  Calls that are
 # not inlined, stores into objects, constructor calls and raises are recorded per path as events.  Nothing of the
 # repository is run: the engine rewrites syntax.
@@ -578,6 +595,21 @@ class Engine:
         if isinstance(e, ast.Name):
             v = single_def_value(fr.fi.node, e.id)
             return self.class_of(fr, v, depth + 1) if v is not None else None
+        if isinstance(e, ast.Attribute):
+            # a field that is not declared: the class of what the methods of its owner store into it, when every
+            # store agrees (`self._table = table` with `table: PerformanceTable`)
+            owner = self.class_of(fr, e.value, depth + 1)
+            found = {}
+            if owner is not None and e.attr not in owner.all_fields():
+                for k in owner.mro():
+                    for meth in k.methods.values():
+                        for n in walk_no_nested(meth.node):
+                            if isinstance(n, (ast.Assign, ast.AnnAssign)) and n.value is not None:
+                                for t in (n.targets if isinstance(n, ast.Assign) else [n.target]):
+                                    if isinstance(t, ast.Attribute) and t.attr == e.attr and dotted_name(t.value) == 'self':
+                                        r = self.class_of(Fr(meth, k, None, fr.stack), n.value, depth + 1)
+                                        found[id(r)] = r
+            return next(iter(found.values())) if len(found) == 1 else None
         if isinstance(e, ast.Call):
             callee = self.resolve(fr, e)
             if callee is not None and self.objects:
@@ -638,6 +670,12 @@ class Engine:
             return r
         if isinstance(f, ast.Name) and (f.id in ('self', 'cls') or self.class_named(fr.fi.module, f) is not None):
             return None
+        if isinstance(f, ast.Attribute) and isinstance(f.value, ast.Attribute):
+            # a method of the object an undeclared field holds (class of the field: what its owner stores into it)
+            k = self.class_of(fr, f.value)
+            m = k.find_method(f.attr) if k is not None else None
+            if m is not None:
+                return m
         k = self.class_of(fr, f)        # a callable object
         if k is not None:
             return k.find_method('__call__')
@@ -1512,9 +1550,26 @@ class Engine:
 
     def _for(self, s, st, fr, raises):
         res = []
+        todo = []
         for it, s1 in self.ev(s.iter, st, fr, raises):
             it2 = self.const_table(it, fr)
             elems = self.literal_elements(it2)
+            if elems is None and is_sym(it2, 'zip') and 'zip' not in s1.env and not it2.keywords and len(it2.args) >= 2 \
+                    and any(self.literal_elements(a) is not None and not isinstance(a, ast.Dict) for a in it2.args) \
+                    and not any(isinstance(a, ast.Starred) for a in it2.args):
+                # zip of a display with sequences that are not written out: as long as those are not shorter than the
+                # display (a literal of the path) the pairs are (display[i], seq[i]); otherwise the loop is summarised
+                n = min(len(a.elts) for a in it2.args if isinstance(a, DISPLAY))
+                longer = [a for a in it2.args if not isinstance(a, DISPLAY)]
+                cond = simp(ast.BoolOp(op=ast.And(), values=[
+                    ast.Compare(left=_call('len', a), ops=[ast.GtE()], comparators=[_const(n)]) for a in longer]))
+                pairs = [ast.Tuple(elts=[a.elts[i] if isinstance(a, DISPLAY) else ast.Subscript(value=a, slice=_const(i), ctx=ast.Load())
+                                         for a in it2.args], ctx=ast.Load()) for i in range(n)]
+                for pol, s2 in self.fork(s1, cond):
+                    todo.append((it, s2, pairs if pol else None))
+                continue
+            todo.append((it, s1, elems))
+        for it, s1, elems in todo:
             if elems is None or len(elems) > 24:
                 res += self._loop_summary(s, it, s.body, s.orelse, s1, fr, raises)
                 continue
@@ -2220,6 +2275,166 @@ def bounds_policy(routine: str, be, fv):
     return False, f'bounds_error={canon(be)[:40]}{fvt}: a state outside the grid is extrapolated / filled (NaN by default) instead of refused'
 
 
+# ------------------------------------------------------------------------------------------------------
+# An explicit range test in place of the routine's own bounds checking
+# ------------------------------------------------------------------------------------------------------
+# A look-up whose routine is told not to refuse (bounds_error=False ...) still refuses every state outside the table
+# when every path that reaches it has tested each component of the query against the two ends of its own grid axis,
+# the other branch of the test leaving by raise.  That is decided on the path condition, not on the spelling of the
+# test: the literals of the path that mention a query component are evaluated on a sample grid (three nodes per
+# axis) with the component below the first node / above the last node (must contradict the path: the state is
+# refused), at the two end nodes and inside (must agree with the path: the table's own edge is answered).  Literals
+# that only read the interpolator object (`I.n_masses == 1`) say which of its shapes the path is for: they are
+# solved over small counts, a path whose literals contradict each other (n == 1 and n > 1) is no path.
+_SAMPLE_AXES = ([100.0, 150.0, 200.0], [1000.0, 1500.0, 2000.0], [7.0, 8.0, 9.0])
+_AXIS_NAMES = ('flight level', 'mass', 'third coordinate')
+
+
+class EnvelopeGuard:
+    """what the path condition of a look-up establishes about its query point"""
+
+    def __init__(self):
+        self.tests = 0          # literals of the path that mention a query component
+        self.infeasible = False  # the literals about the interpolator object contradict each other
+        self.fuzzy = None       # a literal about the interpolator object that could not be evaluated
+        self.unguarded = []     # (axis, 'below' / 'above'): a state outside the grid there follows the path
+        self.edge_refused = []  # (axis, 'first' / 'last'): the table's own end node does not follow the path
+        self.shape = []         # text of the literals about the interpolator object
+        self.why = None         # not None: cannot be decided, and why
+        self.loop = None        # a loop over the grid on the path that was not unrolled (it may hold the range test)
+
+
+def envelope_guard(pc, I, grid, comps, derived=None) -> EnvelopeGuard:
+    """what path condition pc establishes about the query point `comps` of a look-up over `grid` of interpolator
+    object I.  derived(attr, axes, k): value on the sample grid of another attribute the constructor of I computes
+    from the grid axes (`self.fl_lo = fls[0]`), or raises."""
+    g = EnvelopeGuard()
+    k = len(comps)
+    ctxt = [canon(c) for c in comps]
+    if not 1 <= k <= len(_SAMPLE_AXES) or len(set(ctxt)) != k or grid is None:
+        g.why = 'query point the explicit range tests cannot be matched to'
+        return g
+    gtxt = canon(grid)
+    itxt = canon(I) if I is not None else None
+    M, J = [], []
+    for cond, pol in pc:
+        t = canon(cond)
+        if any(c in t for c in ctxt):
+            M.append((cond, pol))
+        elif itxt is not None and itxt + '.' in t:
+            J.append((cond, pol))
+    g.tests = len(M)
+    g.loop = next((canon(c.args[0])[:60] for c, _ in pc if is_sym(c, '_in_loop') and c.args and gtxt in canon(c.args[0])), None)
+    g.shape = [('' if pol else 'not ') + canon(c).replace(itxt, '<interpolator>') for c, pol in J]
+    axes = tuple(list(a) for a in _SAMPLE_AXES[:k])
+    memo = {}
+
+    def text(n):
+        t = memo.get(id(n))
+        if t is None:
+            t = memo[id(n)] = canon(n)
+        return t
+    # attributes of the interpolator object the literals read, other than the grid: a count (compared with integer
+    # constants only: which shape of table the path is for) is solved over 0..3, anything else is computed by the
+    # constructor from the grid axes (derived) or unknown
+    occ, as_count = {}, {}
+    for c, _ in J + M:
+        for n in ast.walk(c):
+            if isinstance(n, ast.Attribute) and itxt is not None and text(n.value) == itxt and text(n) != gtxt:
+                occ[text(n)] = occ.get(text(n), 0) + 1
+            if isinstance(n, ast.Compare):
+                ops = [n.left] + list(n.comparators)
+                for x in ops:
+                    if isinstance(x, ast.Attribute) and all(
+                            y is x or (isinstance(y, ast.Constant) and isinstance(y.value, int)) for y in ops):
+                        as_count[text(x)] = as_count.get(text(x), 0) + 1
+    counts = [t for t in occ if as_count.get(t) == occ[t]][:3]
+    values = {}
+    for t in occ:
+        if t not in counts and derived is not None:
+            try:
+                values[t] = derived(t[len(itxt) + 1:], axes, k)
+            except Exception:
+                pass
+
+    def make_atom(q, assign):
+        qmap = dict(zip(ctxt, q))
+
+        def atom(n):
+            if not isinstance(n, ast.expr) or isinstance(n, ast.Constant):
+                return NotImplemented
+            t = text(n)
+            if t in qmap:
+                return qmap[t]
+            if t == gtxt:
+                return axes
+            if t in assign:
+                return assign[t]
+            if t in values:
+                return values[t]
+            if isinstance(n, ast.Call) and not n.keywords:
+                f = n.func
+                if isinstance(f, ast.Attribute) and f.attr in ('min', 'max') and not n.args and dotted_name(f) not in _DOTTED \
+                        and dotted_name(f.value) not in ('np', 'numpy', 'math'):
+                    v = ceval(f.value, {}, atom)
+                    return (min if f.attr == 'min' else max)(v)
+                if dotted_name(f) in ('np.min', 'np.max', 'np.amin', 'np.amax', 'numpy.min', 'numpy.max', 'numpy.amin', 'numpy.amax') \
+                        and len(n.args) == 1:
+                    v = ceval(n.args[0], {}, atom)
+                    return (min if 'min' in f.attr else max)(v)
+            return NotImplemented
+        return atom
+    assigns = [{}]
+    for a in counts:
+        assigns = [{**d, a: v} for d in assigns for v in (0, 1, 2, 3)]
+    mid = [a[1] for a in axes]
+    good = []
+    for d in assigns:
+        ok = True
+        for cond, pol in J:
+            try:
+                if bool(ceval(cond, {}, make_atom(mid, d))) != pol:
+                    ok = False
+                    break
+            except Exception:
+                g.fuzzy = canon(cond)
+        if ok:
+            good.append(d)
+    if not good:
+        g.infeasible = True
+        return g
+    if not M:
+        return g
+
+    def follows(q, d):
+        for cond, pol in M:
+            if bool(ceval(cond, {}, make_atom(q, d))) != pol:
+                return False
+        return True
+    taken = 0
+    err = None
+    for d in good:
+        try:
+            inside = follows(mid, d)
+            for j, a in enumerate(axes):
+                for out, side in ((a[0] - 1.0, 'below'), (a[-1] + 1.0, 'above')):
+                    if follows(mid[:j] + [out] + mid[j + 1:], d):
+                        taken += 1          # a path states outside the table take (a test that warns and goes on)
+                        if (j, side) not in g.unguarded:
+                            g.unguarded.append((j, side))
+                for edge, side in ((a[0], 'first'), (a[-1], 'last')):
+                    if inside and not follows(mid[:j] + [edge] + mid[j + 1:], d) and (j, side) not in g.edge_refused:
+                        g.edge_refused.append((j, side))
+            taken += inside
+        except Exception as ex:
+            err = f'a range test on the path cannot be evaluated ({type(ex).__name__}: {str(ex)[:60]})'
+    if err is not None and not g.unguarded:
+        g.why = err
+    elif not taken and err is None:
+        g.why = 'the path is not the one a state inside the table takes'
+    return g
+
+
 def _peel(e):
     """(core, chain): the expression inside float(x) / x.item() / np.asarray(x) / x.squeeze() ... and the constant
     integer indices applied to it on the way out, innermost first"""
@@ -2458,6 +2673,42 @@ def rule_no_extrapolation(ctx):
         ctx.undecided('C06-R2', evf, 'evaluate', 'no returning path found')
     n_ok = 0
     seen = set()
+    guards = {}
+
+    def _guard_of(p, e, qc):
+        """envelope_guard of look-up e on path p (cached by what it depends on)"""
+        if e is None or e.name != INTERPN:
+            return None
+        qc = qc or _point_elements(e.arg(2, 'xi'))
+        if not qc:
+            return None
+        key = (id(p.st.pc), canon(e.self_val), canon(e.arg(0, 'points')), tuple(canon(c) for c in qc))
+        if key not in guards:
+            grid = e.arg(0, 'points')
+
+            def derived(attr, axes, k, e=e, grid=grid):
+                # value of self.<attr> as the constructor computes it from the expressions it makes the grid axes of
+                if e.fi.cls is None or not isinstance(grid, ast.Attribute):
+                    raise Unknown(attr)
+                vals = set()
+                for ist in _ctor_paths(prog, e.fi.cls) or []:
+                    gv, av = ist.heap.get(f'self.{grid.attr}'), ist.heap.get(f'self.{attr}')
+                    if not isinstance(gv, (ast.Tuple, ast.List)) or len(gv.elts) != k or av is None:
+                        continue
+                    amap = {}
+                    for x, a in zip(gv.elts, axes):
+                        amap[canon(x)] = list(a)
+                        while isinstance(x, ast.Call) and len(x.args) == 1 and dotted_name(x.func) in (
+                                'np.array', 'np.asarray', 'numpy.array', 'numpy.asarray', 'list', 'tuple'):
+                            x = x.args[0]           # the axis before it is wrapped into an array
+                            amap[canon(x)] = list(a)
+                    vals.add(ceval(av, {}, lambda n: amap.get(canon(n), NotImplemented) if isinstance(n, ast.expr)
+                                   and not isinstance(n, ast.Constant) else NotImplemented))
+                if len(vals) != 1:
+                    raise Unknown(attr)
+                return next(iter(vals))
+            guards[key] = envelope_guard(p.st.pc, e.self_val, grid, qc, derived)
+        return guards[key]
     # ---- outputs come from bounds-checked interpn over the interpolator's own grid / table
     for p in rets:
         if not p.outputs:
@@ -2511,8 +2762,48 @@ def rule_no_extrapolation(ctx):
             refuses, how = bounds_policy(e.via or INTERPN, be, fv)
             if refuses is None:
                 ctx.undecided('C06-R2', where, canon(e.value)[:80], how)
+            guarded = False
             if not refuses:
-                problems.append(built + how)
+                # the routine does not refuse: do explicit range tests on the path refuse in its place?
+                qc = _point_elements(xi) if xi is not None else None
+                g = _guard_of(p, e, qc) if qc else None
+                if g is not None and g.infeasible:
+                    continue            # literals about the interpolator contradict each other: nobody takes this path
+                if g is not None and g.loop and g.why is None and (not g.tests or g.unguarded):
+                    ctx.undecided('C06-R2', where, canon(e.value)[:80], 'the routine is told not to refuse and a loop over the grid '
+                                  f'on the path (`{g.loop}`) may hold the range test made in its place: not followed')
+                if g is None or not g.tests:
+                    # no test on this path: is one made on the other paths to the same look-up?
+                    others = [g2 for g2 in (_guard_of(p2, p2.interp.get(f), None) for p2 in rets if p2 is not p
+                                            and p2.interp.get(f) is not None and p2.interp[f].line == e.line)
+                              if g2 is not None and g2.tests and not g2.infeasible]
+                    skipped = ''
+                    if g is not None and others:
+                        skipped = ('; the explicit range test made in its place on other paths to this look-up is skipped altogether'
+                                   + ((' on the path where ' + ' and '.join(g.shape[:3])) if g.shape else '')
+                                   + ' (a guard clause / early return placed before the test): no state is refused there')
+                    problems.append(built + how + skipped)
+                elif g.why is not None or (g.unguarded and g.fuzzy):
+                    ctx.undecided('C06-R2', where, canon(e.value)[:80],
+                                  'the routine is told not to refuse and the explicit range tests on the path cannot be decided: '
+                                  + (g.why or f'`{g.fuzzy[-60:]}` cannot be evaluated'))
+                elif g.unguarded:
+                    ax = sorted({j for j, _ in g.unguarded})
+                    sides = {j: sorted(sd for jj, sd in g.unguarded if jj == j) for j in ax}
+                    shape = (' on the path where ' + ' and '.join(g.shape[:3])) if g.shape else ''
+                    problems.append(
+                        built + how + '; the explicit range test made in its place does not cover this look-up' + shape + ': '
+                        + '; '.join(f'no test refuses a {_AXIS_NAMES[j]} {" / ".join(sides[j])} the {_AXIS_NAMES[j]}s of the grid' for j in ax)
+                        + ' (a guard clause or early return skips the test, or the test is made on one side / another axis only)')
+                elif g.edge_refused and not any(
+                        g2 is not None and g2.why is None and not g2.infeasible and not (set(g.edge_refused) & set(g2.edge_refused))
+                        for g2 in (_guard_of(p2, p2.interp.get(f), None) for p2 in rets if p2 is not p)):
+                    j, side = g.edge_refused[0]
+                    problems.append(f'the explicit range test made in place of the routine\'s bounds checking refuses the {side} '
+                                    f'{_AXIS_NAMES[j]} of the grid itself (strict comparison): a tabulated state at the edge of the '
+                                    'table is rejected instead of answered with the table value')
+                else:
+                    guarded = True
             if meth is not None and not (isinstance(meth, ast.Constant) and meth.value == 'linear'):
                 problems.append(built + f'method={canon(meth)} is not linear interpolation')
             own = I is not None and isinstance(grid, ast.Attribute) and isinstance(vals, ast.Attribute) \
@@ -2532,7 +2823,9 @@ def rule_no_extrapolation(ctx):
                 what = f'{f} = interpn(<interpolator>.{grid.attr}, <interpolator>.{vals.attr}, query)' if e.via is None else \
                     f'{f} = {routine}(<interpolator>.{grid.attr}, <interpolator>.{vals.attr})(query)'
             ctx.ob('C06-R2', where, what, ok,
-                   'bounds checking left on (raise outside the grid), linear, over the interpolator\'s own grid and table' if ok
+                   ('every component of the query is tested against the two ends of its own grid axis on the way (raise outside), '
+                    'linear, over the interpolator\'s own grid and table' if guarded else
+                    'bounds checking left on (raise outside the grid), linear, over the interpolator\'s own grid and table') if ok
                    else '; '.join(problems), line=e.line)
     ctx.floor('C06-R2', n_ok, 3, 'outputs produced by a table look-up (interpn or equivalent) on the evaluate path')
     # ---- the three outputs use one grid attribute and three different tables
@@ -3586,6 +3879,7 @@ def _compatible(call_st, init_st):
             return self.generic_visit(n)
     conds = [(simp_deep(Sub().visit(clone(c))), p) for c, p in call_st.pc if not is_sym(c, '_in_loop')]
     conds += [(c, p) for c, p in init_st.pc if not is_sym(c, '_in_loop') and not is_sym(c, '_raised')]
+    qnames = {k for k in call_st.env if k not in ('self', 'cls')} - set(init_st.env)
     # unknowns: len(<expr>) atoms
     atoms = sorted({canon(n) for c, _ in conds for n in ast.walk(c)
                     if isinstance(n, ast.Call) and canon(n.func) == 'len' and len(n.args) == 1})
@@ -3607,6 +3901,15 @@ def _compatible(call_st, init_st):
                     ok = False
                     break
             except Exception:
+                # a test of the query itself (an explicit range test: `n != 1 and not lo <= mass <= hi`) holds for
+                # some query and fails for another: its comparisons that read a parameter / local of the call are
+                # free, the literal only tells the branches apart by what it says about the object
+                sat = _sat_free(c, p, atom, qnames)
+                if sat is True:
+                    continue
+                if sat is False:
+                    ok = False
+                    break
                 # a condition about something else (e.g. the duplicate check): does not tell the branches apart
                 if any(canon(n) in val for n in ast.walk(c) if isinstance(n, ast.Call)) or 'self.' in canon(c):
                     any_unknown = True
@@ -3614,6 +3917,37 @@ def _compatible(call_st, init_st):
         if ok and not any_unknown:
             return True
     return None if any_unknown else False
+
+
+def _sat_free(c, p, atom, qnames):
+    """can condition c take truth value p when its comparisons / all() / any() over the names `qnames` (values the
+    caller chooses) are free?  True / False, None when c cannot be evaluated even so"""
+    import itertools
+    free = []
+
+    def find(n):
+        if (isinstance(n, ast.Compare) or (isinstance(n, ast.Call) and isinstance(n.func, ast.Name) and n.func.id in ('all', 'any'))) \
+                and any(isinstance(x, ast.Name) and x.id in qnames for x in ast.walk(n)):
+            free.append(n)
+            return
+        for ch in ast.iter_child_nodes(n):
+            find(ch)
+    find(c)
+    if not free or len(free) > 4:
+        return None
+    try:
+        for combo in itertools.product((True, False), repeat=len(free)):
+            m = {id(n): v for n, v in zip(free, combo)}
+
+            def atom2(n):
+                if id(n) in m:
+                    return m[id(n)]
+                return atom(n)
+            if bool(ceval(c, {}, atom2)) == p:
+                return True
+        return False
+    except Exception:
+        return None
 
 
 def simp_deep(e):
